@@ -7,7 +7,7 @@ import sys
 import tempfile
 
 VERIF = os.path.dirname(os.path.dirname(os.path.abspath(__file__)))
-LEAN_DIR = os.path.join(VERIF, "lean")
+LEAN_DIR = os.environ.get("VERIF_LEAN_DIR") or os.path.join(VERIF, "lean")  # override: development copies only
 
 # the user cache dir must be redirected *before* ceos_alos2 is imported (cache_root is computed at import)
 SCRATCH = tempfile.mkdtemp(prefix="alos2-verif-")
